@@ -176,7 +176,8 @@ def exc_in_lark(tb_text):
     """True when the innermost frame of a formatted traceback lies in lark's source (as opposed to the harness)."""
     import re
     files = re.findall(r'File "([^"]+)"', tb_text or '')
-    return bool(files) and ('/lark/' in files[-1]) and '/harness/' not in files[-1]
+    # (a stand-alone module generated by lark.tools.standalone is lark's code too: the C11 harness writes it to <tmp>/larkverif_c11_*/sa_mod.py)
+    return bool(files) and ('/lark/' in files[-1] or '/sa_mod.py' in files[-1]) and '/harness/' not in files[-1]
 
 
 class InfraError(Exception):
